@@ -36,7 +36,7 @@ def plan(tier, ctx):
             j += fvm.config('C02', 'grow_push2_pop', 'deque.c', 2, 5, mm, srcs=src, defines=['PROG_PUSH2_POP', 'INIT=1'], spec=G,
                             bounds='1 element; owner push (grow), push, pop; thief steal,steal', timeout=1200)
             j += fvm.config('C02', 'pop2_offset', 'deque.c', 2, 5, mm, srcs=src, defines=['PROG_POP2', 'OFFSET'], spec=S,
-                            bounds='as pop2 with top/bottom shifted by a symbolic common offset in {0,-2,2^62}', timeout=1200)
+                            bounds='as pop2 with top/bottom shifted by a symbolic common offset in {0,-4,-8,2^62}', timeout=1200)
         j += fvm.config('C02', 'pop2_3steals_2thieves', 'deque.c', 3, 5, 'sc', srcs=src, defines=['PROG_POP2', 'THIEF2', 'NSTEAL=2'], spec=S,
                         bounds='2 elements; two thieves two steals each', timeout=1800, required=False)
     return j
